@@ -87,3 +87,6 @@ Definition wf_faults_b (l : list polyline) : bool := forallb wf_polyline_b l.
 Definition alloc_bound (flen : Z) : Z := 256 * flen + 4096.
 (* DbGrid also allocates two ndim x ndim rotation matrices *)
 Definition alloc_bound_grid (flen : Z) : Z := 16 * flen * flen + 512 * flen + 8192.
+(* Vario: per direction, vectors of ndim values and result arrays bounded by the file; Model: per covariance, ndim x ndim tensors *)
+Definition alloc_bound_vario (flen : Z) : Z := 64 * flen * flen + 512 * flen + 8192.
+Definition alloc_bound_model (flen : Z) : Z := 64 * flen * flen * flen + 64 * flen * flen + 512 * flen + 8192.
